@@ -69,7 +69,7 @@ def esdsDispatch (op : String) (args : List String) : Option String :=
   | _, _ => none
 end esds
 
-def dispatch (op : String) (args : List String) : Option String :=
+def dispatch1 (op : String) (args : List String) : Option String :=
   match op, args with
   | "asc.enc", [ot, ch, sf, ef] => do
       let a : ASC := ⟨← ot.toNat?, ← ch.toNat?, ← sf.toNat?, ← ef.toNat?, false, false⟩
@@ -86,5 +86,24 @@ def dispatch (op : String) (args : List String) : Option String :=
       | .error _ => "err"
       | .ok (a, off) => s!"{a.id} {a.objectType} {a.samplingFrequencyIndex} {a.channelConfig} {a.headerLength} {a.payloadLength} {a.bufferFullness} off={off}"
   | _, _ => esdsDispatch op args
+
+/-- the token list of a `hist` request cut at the `|` tokens -/
+def splitBar : List String → List (List String)
+  | [] => [[]]
+  | t :: ts =>
+    match splitBar ts with
+    | [] => [[t]]
+    | cur :: more => if t = "|" then [] :: cur :: more else (t :: cur) :: more
+
+/-- `hist r1 | r2 | ...`: the code executes the requests in order, holds every result and renders them all after
+    the last call; encoders and decoders are functions, so the model answers every request on its own -/
+def dispatch (op : String) (args : List String) : Option String :=
+  match op with
+  | "hist" =>
+    let subs := (splitBar args).filter (· ≠ [])
+    some (" | ".intercalate (subs.map fun
+      | [] => ""
+      | o :: a => (dispatch1 o a).getD "bad-op"))
+  | _ => dispatch1 op args
 
 end Mp4ff.Driver.C18
